@@ -50,14 +50,14 @@ CLAIMED = {
    note="Trusted: Archive/std::string stubs, integer backend memory-safe on NUL-terminated strings, extraction rules (template header strip), CBMC.",
    tech="contract-based deductive verification with CBMC on mechanically extracted function text (route F full domain for load_typeid; bounded string length for the load_helper scan)"),
  "C24": dict(cat="model_checking", design="§4 C24",
-   text="BOUNDED stand-in (not a proof): the real text of ~55 routines of dense_matrix.cpp is executed symbolically by CBMC over the field abstraction GF(3) (GF(5) and 4x4 in the "
+   text="BOUNDED stand-in (not a proof): the real text of ~60 routines of dense_matrix.cpp is executed symbolically by CBMC over the field abstraction GF(3) (GF(5) and 4x4 in the "
         "thorough tier) for EVERY matrix of the stated shape (3x3, 3x4, 2x3; LU/LDL also 4x4), against pre/postconditions that are textbook linear algebra written over the field "
         "tables: entrywise operations, transpose, submatrix, row/column insert/delete/exchange/scale/add (exact data movement); mul_dense_dense = textbook product (also with aliased output); "
-        "det_bareis = cofactor expansion; L*U = A, P*A = L*U, L*D*L^T = A, fraction-free LDU identity, with the triangular shapes; A*x = b for LU/FFLU/pivoted LU/LDL/fraction-free "
+        "det_bareis and det_berkowitz = cofactor expansion; char_poly monic with -trace, (-1)^n det and p(A) = 0 (Cayley-Hamilton); L*U = A, P*A = L*U, L*D*L^T = A, fraction-free LDU identity, with the triangular shapes; A*x = b for LU/FFLU/pivoted LU/LDL/fraction-free "
         "Gauss / Gauss-Jordan (with and without pivoting)/diagonal/back substitution solvers; A*A^-1 = I for the four inverse routines; reduced_row_echelon_form and the four pivoted "
         "eliminations: row-equivalent to the input (equal null spaces), echelon shape, pivot columns; pivoting routines never divide by zero on a non-singular input; every index in range; "
         "every developer SYMENGINE_ASSERT at call sites.",
-   note="Trusted: field prelude (exact arithmetic is a field; identities of rational functions over Q hold over GF(p) where no division by zero occurs), container stubs, extraction rules, CBMC. QR/cholesky (sqrt), berkowitz family, eigen_values, jacobian/diff not covered.",
+   note="Trusted: field prelude (exact arithmetic is a field; identities of rational functions over Q hold over GF(p) where no division by zero occurs), container stubs, extraction rules, CBMC. QR/cholesky (sqrt), eigen_values, jacobian/diff not covered.",
    tech="contract-based verification with CBMC on mechanically extracted function text: pre/postcondition harnesses per routine over a finite-field abstraction of the exact numbers; bounded model checking (matrix size, field, unwinding assertions) — bounded stand-in"),
  "C25": dict(cat="proof", design="§4 C25",
    text="(1) PROVED: inductive contract proof (CBMC function and loop contracts via goto-instrument --dfcc, every iteration count) of the CSR canonical-form "
